@@ -199,8 +199,8 @@ def judge_string(case, res):
     if any(ord(c) > 127 for c in raw) or '\\' in raw:
         res.nt(env.chash(raw))
         res.count('string_nonascii' if any(ord(c) > 127 for c in raw) else 'string_escape')
-    if res.evaluations % 200 == 1:
-        res.sample({'string': raw})
+    if (any(ord(c) > 127 for c in raw) or '\\' in raw) and len(raw) > 4 and res.evaluations % 20 == 0:
+        res.sample({'string': raw, 'bytes': exp.hex(), 'line ending': 'CR LF' if eol != '\n' else 'LF'})
 
 
 def string_job(n, shard):
